@@ -69,6 +69,7 @@ let parse_cmd (s : string) : cmd =
   | ["pollif"] -> CPollIf
   | ["spawn"] -> CSpawn
   | ["join"] -> CJoin
+  | ["waitidle"] -> CWaitIdle
   | ["cnew"; c] -> CCNew (z_of_string c)
   | ["cdrop"; c] -> CCDrop (z_of_string c)
   | ["pnew"; p] -> CPNew (z_of_string p)
@@ -91,6 +92,7 @@ let cmd_text (c : cmd) : string =
   | CPollIf -> "pollif"
   | CSpawn -> "spawn"
   | CJoin -> "join"
+  | CWaitIdle -> "waitidle"
   | CCNew c -> "cnew " ^ zs c
   | CCDrop c -> "cdrop " ^ zs c
   | CPNew p -> "pnew " ^ zs p
@@ -137,6 +139,7 @@ let event_fields (e : wevent) : (string * string * string * string * string) opt
   | EFwdRecv (p, m) -> Some ("FR", "0", "0", "0", zs p ^ " " ^ zs m)
   | ETerm (p, b) -> Some ("T", "0", "0", "0", zs p ^ " " ^ (if b then "boom" else "none"))
   | EJoin -> Some ("J", "0", "0", "0", "")
+  | EIdle -> Some ("I", "0", "0", "0", "")
   | EExit -> Some ("E", "0", "0", "0", "")
   | EPub (h, ok) -> Some ("#PUB", "0", "0", "0", hk_name h ^ " " ^ b01 ok)
   | EDel (bit, h) -> Some ("#DEL", "0", "0", "0", zs bit ^ " " ^ hk_name h)
@@ -188,6 +191,7 @@ let () =
                | "FR", [p; m] -> push (EFwdRecv (zz p, zz m))
                | "T", [p; v] -> push (ETerm (zz p, v <> "none"))
                | "J", _ -> push EJoin
+               | "I", _ -> push EIdle
                | "E", _ -> push EExit
                | "S", _ -> push EStart
                | "X", _ -> aborted := true
